@@ -208,8 +208,12 @@ def build(ctx):
     for dt in UDT:
         ctx.unit(f"map_instance_labels[{dt}]", lambda dt=dt: unit_relabel(ctx, dt))
     ctx.unit("match_instances", lambda: unit_wrapper(ctx))
+    # the lookup-table relabelling _map_labels (its call-site precondition is discharged above) and the routines around it: body proofs of C09
+    include_stage(ctx, "C09")
     ctx.add_bounded("c04-enum", "c04.bounded")
 
 
 def concretise(ctx, o, r):
+    if (o.info or {}).get("stage"):
+        return stage_concretise(ctx, o, r)
     return {"dtype": o.info.get("dtype"), "obligation": o.name}
